@@ -588,16 +588,12 @@ func (h *hydra) SubscribeToSwampInfo(clientID uuid.UUID, swampName name.Name, su
 		}
 	}()
 
-	if subscribers, ok := h.infoSubscribers.Load(canonicalForm); ok {
-		// Always overwrite the subscriber, since the channel may have changed as well.
-		subscribers.(*sync.Map).Store(clientID.String(), subscriberInfoCallbackFunction)
-		return nil
-	}
-
-	// there is no subscribers to this swamp yet
-	subscribers := &sync.Map{}
-	subscribers.Store(clientID.String(), subscriberInfoCallbackFunction)
-	h.infoSubscribers.Store(canonicalForm, subscribers)
+	// LoadOrStore, not Load-then-Store: two clients subscribing to the same swamp
+	// at the same moment would otherwise each create the per-swamp map and the
+	// second Store would throw the first subscriber away.
+	subscribers, _ := h.infoSubscribers.LoadOrStore(canonicalForm, &sync.Map{})
+	// Always overwrite the subscriber, since the channel may have changed as well.
+	subscribers.(*sync.Map).Store(clientID.String(), subscriberInfoCallbackFunction)
 
 	return nil
 
@@ -651,16 +647,12 @@ func (h *hydra) SubscribeToSwampEvents(clientID uuid.UUID, swampName name.Name, 
 		}
 	}()
 
-	if subscribers, ok := h.eventSubscribers.Load(canonicalForm); ok {
-		// Always overwrite the subscriber, since the channel may have changed as well.
-		subscribers.(*sync.Map).Store(clientID.String(), subscriberEventCallbackFunction)
-		return nil
-	}
-
-	// there is no subscribers to this swamp yet
-	subscribers := &sync.Map{}
-	subscribers.Store(clientID.String(), subscriberEventCallbackFunction)
-	h.eventSubscribers.Store(canonicalForm, subscribers)
+	// LoadOrStore, not Load-then-Store: two clients subscribing to the same swamp
+	// at the same moment would otherwise each create the per-swamp map and the
+	// second Store would throw the first subscriber away.
+	subscribers, _ := h.eventSubscribers.LoadOrStore(canonicalForm, &sync.Map{})
+	// Always overwrite the subscriber, since the channel may have changed as well.
+	subscribers.(*sync.Map).Store(clientID.String(), subscriberEventCallbackFunction)
 
 	return nil
 
